@@ -30,9 +30,19 @@ DEFS = {
     'S_text': '<xsl:stylesheet version="1.0" %s><xsl:output method="text"/><xsl:template match="/"><xsl:for-each select="//i"><xsl:value-of select="@n"/>,</xsl:for-each></xsl:template></xsl:stylesheet>' % X,
     'S_gv': '<xsl:stylesheet version="1.0" %s><xsl:variable name="g"><xsl:if test="//i[@n=\'z\']"><xsl:message terminate="yes">stop in a top-level variable</xsl:message></xsl:if><xsl:value-of select="count(//i)"/></xsl:variable>'
             '<xsl:variable name="h" select="concat($g, \'!\')"/><xsl:template match="/"><o><xsl:value-of select="$h"/></o></xsl:template></xsl:stylesheet>' % X,
+    # a sort key that fails for the LAST node of D3 in document order (key name 'k' + @w: undeclared for w='x'), after the keys of the
+    # other nodes have been computed and cached: text and number data types have separate caches
+    'S_sorterr': '<xsl:stylesheet version="1.0" %s><xsl:key name="k" match="i" use="@g"/><xsl:template match="/"><o><xsl:for-each select="//i"><xsl:sort select="concat(count(key(concat(\'k\', @w), \'1\')), @g)"/>'
+                 '<e><xsl:value-of select="@n"/></e></xsl:for-each></o></xsl:template></xsl:stylesheet>' % X,
+    'S_sorterrn': '<xsl:stylesheet version="1.0" %s><xsl:key name="k" match="i" use="@g"/><xsl:template match="/"><o><xsl:apply-templates select="//i"><xsl:sort select="count(key(concat(\'k\', @w), \'1\')) - @g" data-type="number"/>'
+                  '</xsl:apply-templates></o></xsl:template><xsl:template match="i"><e><xsl:value-of select="@n"/></e></xsl:template></xsl:stylesheet>' % X,
+    'S_sort2': '<xsl:stylesheet version="1.0" %s><xsl:template match="/"><o><xsl:for-each select="//i"><xsl:sort select="@g" data-type="number" order="descending"/><xsl:sort select="@n"/>'
+               '<e><xsl:value-of select="@n"/></e></xsl:for-each>|<xsl:apply-templates select="//i"><xsl:sort select="@n" order="descending"/></xsl:apply-templates></o></xsl:template>'
+               '<xsl:template match="i"><f><xsl:value-of select="@n"/></f></xsl:template></xsl:stylesheet>' % X,
     'S_comperr': '<xsl:stylesheet version="1.0" %s><xsl:template match="/"><xsl:nosuch/><xsl:value-of select="1 +"/></xsl:template></xsl:stylesheet>' % X,
     'D1': '<r><i n="b" g="1" u="">1</i><i n="a" g="2" u="é">2</i><i n="c" g="1" u="">3</i></r>',
     'D2': '<r><i n="z" g="2" u=""><i n="y" g="1" u="">4</i></i></r>',
+    'D3': '<r><i n="d" g="1" w="">1</i><i n="b" g="2" w="">2</i><i n="c" g="1" w="">3</i><i n="a" g="2" w="x">4</i></r>',
     'D_bad': '<r><i></r>',
 }
 
@@ -41,11 +51,12 @@ OPS = [
     'compile:S_ok', 'compile:S_term', 'compile:S_gv', 'compile:S_comperr',
     'parse:D1:st', 'parse:D2:xw', 'parse:D_bad:st',
     'trS:S_ok:D1', 'trS:S_term:D1', 'trS:S_rterr:D1', 'trS:S_badname:D1', 'trS:S_enc:D2', 'trS:S_doc:D1', 'trS:S_html:D2', 'trS:S_ok:D_bad', 'trS:S_comperr:D1',
+    'trS:S_sorterr:D3', 'trS:S_sorterrn:D3',
     'trH:0:0', 'trH:0:1', 'trM:S_term:0',
     "param:p='1'", 'param:p=2+3', "param:q=//i[1]/@n", 'clear',
     'delS:0', 'delD:0', 'indent:2', 'enc:ISO-8859-1', 'inst', 'uninst',
 ]
-PROBES = ['trS:S_ok:D1', 'trS:S_ok:D2', 'trH:0:0', 'trH:0:1', 'trH:0:0', 'trS:S_html:D1', 'trS:S_term:D2', 'trS:S_text:D1', 'trM:S_ok:0']
+PROBES = ['trS:S_ok:D1', 'trS:S_ok:D2', 'trH:0:0', 'trH:0:1', 'trH:0:0', 'trS:S_html:D1', 'trS:S_term:D2', 'trS:S_text:D1', 'trM:S_ok:0', 'trS:S_sort2:D1', 'trS:S_sort2:D2']
 COMPILES_OK = {'S_ok': True, 'S_term': True, 'S_gv': True, 'S_comperr': False}
 PARSES_OK = {'D1': True, 'D2': True, 'D_bad': False}
 MAX_HANDLES = 2
